@@ -17,8 +17,10 @@ import (
 	"encoding/json"
 	"flag"
 	"fmt"
+	"math"
 	"os"
 	"sort"
+	"strconv"
 	"strings"
 	"sync"
 	"sync/atomic"
@@ -117,11 +119,50 @@ func (e *c14Env) call(fn lua.LValue, args ...lua.LValue) ([]lua.LValue, []interf
 	return out, nil
 }
 
-func c14OptNum(args []lua.LValue, tok interface{}) []lua.LValue {
-	if t, ok := tok.([]interface{}); ok && len(t) == 2 && t[0] == "n" {
-		return append(args, lua.LNumber(tokInt(t[1])))
+// optional arguments from argument tokens (see Pattern!OptInteger): ["nil"] absent,
+// ["xnil"] explicit nil, ["n",k], ["h",k] = k+0.5, ["str",t] decimal text of t,
+// ["big",e] = 2^e, ["nbig",e] = -2^e, ["bad"] a non-numeric string, ["b",bool], ["s",bytes].
+// Trailing absent arguments are not passed; an absent one before a present one is nil.
+func c14ArgValue(tok interface{}) (lua.LValue, bool) {
+	t, ok := tok.([]interface{})
+	if !ok || len(t) == 0 {
+		return lua.LNil, false
 	}
-	return args
+	switch t[0].(string) {
+	case "xnil":
+		return lua.LNil, true
+	case "n":
+		return lua.LNumber(tokInt(t[1])), true
+	case "h":
+		return lua.LNumber(float64(tokInt(t[1])) + 0.5), true
+	case "big":
+		return lua.LNumber(math.Pow(2, float64(tokInt(t[1])))), true
+	case "nbig":
+		return lua.LNumber(-math.Pow(2, float64(tokInt(t[1])))), true
+	case "str":
+		v, _ := c14ArgValue(t[1])
+		return lua.LString(strconv.FormatFloat(float64(v.(lua.LNumber)), 'f', -1, 64)), true
+	case "bad":
+		return lua.LString("x"), true
+	case "b":
+		return lua.LBool(t[1].(bool)), true
+	case "s":
+		return lua.LString(c14Bytes(t[1])), true
+	}
+	return lua.LNil, false
+}
+
+func c14OptNum(args []lua.LValue, toks ...interface{}) []lua.LValue {
+	last := -1
+	vals := make([]lua.LValue, len(toks))
+	for i, tok := range toks {
+		v, present := c14ArgValue(tok)
+		vals[i] = v
+		if present {
+			last = i
+		}
+	}
+	return append(args, vals[:last+1]...)
 }
 
 func c14Odd(rets []lua.LValue) []interface{} {
@@ -133,8 +174,12 @@ func c14Odd(rets []lua.LValue) []interface{} {
 }
 
 // string.find(s, p [, init]) -> ["nil"] | ["m", start, end, [captures]]
-func (e *c14Env) runFind(s, p []byte, init interface{}) []interface{} {
-	rets, bad := e.call(e.find, c14OptNum([]lua.LValue{lua.LString(s), lua.LString(p)}, init)...)
+func (e *c14Env) runFind(s, p []byte, init interface{}, plain ...interface{}) []interface{} {
+	var pl interface{}
+	if len(plain) > 0 {
+		pl = plain[0]
+	}
+	rets, bad := e.call(e.find, c14OptNum([]lua.LValue{lua.LString(s), lua.LString(p)}, init, pl)...)
 	if bad != nil {
 		return bad
 	}
@@ -262,7 +307,7 @@ func (e *c14Env) runCase(c map[string]interface{}) []interface{} {
 	s, p := c14Bytes(c["s"]), c14Bytes(c["p"])
 	switch c["fn"].(string) {
 	case "find":
-		return e.runFind(s, p, c["i"])
+		return e.runFind(s, p, c["i"], c["pl"])
 	case "match":
 		return e.runMatch(s, p, c["i"])
 	case "gmatch":
@@ -830,6 +875,11 @@ func c14Classify(e *c14Env, rec map[string]interface{}, exp, obs []interface{}) 
 	if ok == "odd" {
 		return "C14:" + fn + ":odd-result"
 	}
+	if e != nil {
+		if k := e.argFormKey(rec, obs); k != "" {
+			return k
+		}
+	}
 	// function-level classes whose signature does not depend on the pattern
 	switch fn {
 	case "gmatchiter":
@@ -1235,4 +1285,70 @@ func (e *c14Env) runGmatchIter(s, s2, p []byte, k, mode int) []interface{} {
 		}
 	}
 	return []interface{}{"i", its[0].out, its[1].out}
+}
+
+// ---- attribution to the FORM of an optional argument (keys only) ---------------
+// The reference reads an explicit nil like an absent argument, a numeric string
+// like its number, a fraction like its truncation, +-2^e like a number beyond
+// every length, and any plain flag other than nil/false like true.  If the real
+// function answers differently for the given form than for that plain form,
+// the case key names the argument and its form.
+func c14ArgNorm(tok interface{}, plain bool) (interface{}, string) {
+	t, ok := tok.([]interface{})
+	if !ok || len(t) == 0 {
+		return tok, ""
+	}
+	form := t[0].(string)
+	if plain {
+		switch {
+		case form == "nil" || (form == "b" && t[1] == true):
+			return tok, ""
+		case form == "xnil" || form == "b":
+			return []interface{}{"nil"}, form
+		}
+		return []interface{}{"b", true}, "truthy-" + form
+	}
+	switch form {
+	case "xnil":
+		return []interface{}{"nil"}, "explicit-nil"
+	case "h":
+		k := tokInt(t[1])
+		if k < 0 {
+			k++
+		}
+		return []interface{}{"n", k}, "fraction"
+	case "big":
+		return []interface{}{"n", 1 << 30}, "huge"
+	case "nbig":
+		return []interface{}{"n", -(1 << 30)}, "huge-negative"
+	case "str":
+		n, _ := c14ArgNorm(t[1], false)
+		return n, "numeric-string"
+	}
+	return tok, ""
+}
+
+func (e *c14Env) argFormKey(rec map[string]interface{}, obs []interface{}) string {
+	fn := rec["fn"].(string)
+	for _, a := range []struct {
+		field, name string
+		plain       bool
+	}{{"i", "init", false}, {"pl", "plain", true}, {"n", "limit", false}} {
+		if (a.field == "n") != (fn == "gsub") || (a.field == "pl" && fn != "find") || fn == "gmatch" || fn == "gmatchiter" {
+			continue
+		}
+		norm, form := c14ArgNorm(rec[a.field], a.plain)
+		if form == "" {
+			continue
+		}
+		alt := map[string]interface{}{}
+		for k, v := range rec {
+			alt[k] = v
+		}
+		alt[a.field] = norm
+		if c14Canon(e.runCase(alt)) != c14Canon(obs) {
+			return "C14:" + fn + ":" + a.name + "-given-as-" + form
+		}
+	}
+	return ""
 }
